@@ -445,6 +445,9 @@ func GenPhysical(t *rapid.T, w *Workbook) {
 	for i, k := 0, rapid.IntRange(0, 3).Draw(t, "sstFiller"); i < k; i++ {
 		o.SSTFiller = append(o.SSTFiller, fmt.Sprintf("filler-%d", i))
 	}
+	if rapid.IntRange(0, 11).Draw(t, "sstRenamed") == 0 {
+		o.SSTPart = rapid.SampledFrom([]string{"xl/strings.xml", "xl/sst/sharedStrings1.xml", "xl/worksheets/strings.xml"}).Draw(t, "sstPart")
+	}
 	if rapid.IntRange(0, 4).Draw(t, "relShuffle") < 3 {
 		o.RelSeed = rapid.Uint64Range(1, 1<<32).Draw(t, "relSeed")
 	}
